@@ -183,6 +183,7 @@ func (p *program) checkFile(f *ast.File) {
 	verifGate("Barrier", len(p.checkers))
 
 	for i, c := range p.checkers {
+		verifGate("PrintSlot", i)
 		for _, warn := range warnings[i] {
 			p.foundIssues = true
 			loc := p.ctx.FileSet.Position(warn.Pos).String()
